@@ -15,6 +15,12 @@
 //!                 {1,2,5,1000}, for ceil(keys/limit)+2 rounds;
 //!   sync_sim      the same through `MultiNodeSimulation::run_anti_entropy_sync`.
 //!
+//! Two further sub-checks drive LONG-LIVED objects through generated event sequences (own case
+//! types, see the sections below): `manager_sessions` (one `AntiEntropyManager` per replica
+//! across many exchanges) and `sim_sessions` (one `MultiNodeSimulation`: every digest a
+//! `SimulatedNode` computes during its life against its state, every pair sync / full pass
+//! against the merges).
+//!
 //! Everything the harness decides is independent of `HashMap` iteration order: verdicts are
 //! computed from sorted `KeyDigest` lists per bucket ("ideal" divergence) and from canonical
 //! projections; the API's own answers are then compared with those.
@@ -1454,6 +1460,610 @@ fn mcase_strategy() -> impl Strategy<Value = MCase> {
 }
 
 // ---------------------------------------------------------------------------------------
+// sim sessions: long-lived SimulatedNodes through several anti-entropy passes
+// ---------------------------------------------------------------------------------------
+//
+// `sync_sim` builds two fresh nodes, fills them and syncs them: every node digest there is the
+// node's FIRST digest, or a digest taken after a pass that already completed everything. A node
+// of a running cluster lives on: it takes part in an anti-entropy pass (periodic, or on heal),
+// then its state changes — by a local write (`SimulatedNode::execute`), by gossip delivery or
+// by the deltas of an earlier anti-entropy exchange (`SimulatedNode::apply_remote_deltas`, no
+// local write) — and then it takes part in the next pass with another peer. Whatever the node
+// answers with at that point (`SimulatedNode::generate_digest`, which is what
+// `run_anti_entropy_sync` compares) must be the digest of its state NOW.
+//
+// A session is one `MultiNodeSimulation` (2–3 nodes, one depth/limit, generated seed, packet
+// loss and auto-sync-on-heal setting) driven through generated events using only its public
+// entry points. Oracles (all from the property text):
+//   * at every digest observation: the digest a node computes equals the digest an independent
+//     replica with equal state computes (fresh manager on an independently built map), and the
+//     pair verdict `differs_from` / `divergent_buckets` matches the two states themselves;
+//   * after every pair sync between connected nodes (`run_anti_entropy_sync`, or the one
+//     `heal_partition` triggers): safety for every key, merge of every key of the divergent
+//     buckets where both sides fit the per-round limit;
+//   * after `run_full_anti_entropy`: every value is the merge of a set of prior values that
+//     includes the node's own; where nothing exceeds the limit the result is exactly that of
+//     pairwise merges over the connected pairs (each pair once, any order of the pairs).
+
+#[derive(Clone, Debug, Serialize, Deserialize)]
+enum SEv {
+    /// local SET through `MultiNodeSimulation::execute` (ex: 0 = no expiry, else EX seconds)
+    Set { n: u8, key: u8, p: u8, ex: u8 },
+    /// local DEL of one or two keys
+    Del { n: u8, key: u8, key2: u8 },
+    /// `converge(rounds)`: gossip rounds with the simulation's own delays / loss / partitions
+    GossipRounds { rounds: u8 },
+    /// one replication message delivered directly (`apply_remote_deltas` of `from`'s value)
+    Deliver { from: u8, to: u8, key: u8 },
+    Partition { a: u8, b: u8 },
+    /// `heal_partition` (runs a pair sync if the pair was partitioned and auto sync is on)
+    Heal { a: u8, b: u8, observe: bool },
+    /// `run_anti_entropy_sync(a, b)` if the two can communicate
+    Sync { a: u8, b: u8, observe: bool },
+    /// `run_full_anti_entropy()` (the periodic pass)
+    FullSync { observe: bool },
+    /// both nodes compute their digest; nothing else happens
+    Compare { a: u8, b: u8 },
+}
+
+#[derive(Clone, Debug, Serialize, Deserialize)]
+struct SCase {
+    nodes: u8,
+    depth: u8,
+    limit: u8,
+    seed: u8,
+    /// 0: no loss, 1: 30 % loss, 2: 60 % loss
+    loss: u8,
+    auto_sync_on_heal: bool,
+    events: Vec<SEv>,
+}
+
+type Ideal = Vec<Vec<(u64, u64, u64)>>;
+
+/// What the harness knows about a node's digest history (labels and the NT rule only; no
+/// verdict depends on it).
+struct NodeTrack {
+    fp: String,
+    digested: bool,
+    /// sorted key digests per bucket when the node last computed a digest (None: the state
+    /// changed inside a multi-pair pass, so the state at its last digest was not observed)
+    at_digest: Option<Ideal>,
+    local_since: bool,
+    remote_since: bool,
+    /// changed somewhere between its digests inside a multi-pair pass
+    unknown_since: bool,
+}
+
+fn node_map(sim: &MultiNodeSimulation, i: usize) -> Map {
+    sim.nodes[i].replica_state.replicated_keys.clone()
+}
+
+/// Labels the life-cycle class of the digest node `x` is about to compute for a comparison with
+/// `peer`; returns true if the node has computed a digest before and its state changed since.
+fn label_digest_point(t: &NodeTrack, mine: &Map, peer: &Map, depth: usize, ctx: &mut CaseCtx<'_>) -> bool {
+    if !t.digested {
+        ctx.label("node_digest:first_of_this_node");
+        return false;
+    }
+    let changed = t.local_since || t.remote_since;
+    ctx.label(match (t.local_since, t.remote_since) {
+        (false, false) if t.unknown_since => "node_digest:changed_inside_the_last_full_pass_only",
+        (false, false) => "node_digest:state_unchanged_since_last_digest",
+        (true, false) => "node_digest:changed_by_local_write_only",
+        (false, true) => "node_digest:changed_by_remote_apply_only",
+        (true, true) => "node_digest:changed_by_local_write_and_remote_apply",
+    });
+    if let Some(old) = &t.at_digest {
+        let (now, p) = (ideal(mine, depth), ideal(peer, depth));
+        if *old != now {
+            // what answering with the digest of the EARLIER state would do to this comparison
+            let class = if *old == p {
+                "false_in_sync"
+            } else if now == p {
+                "false_divergent"
+            } else {
+                let nb = 1usize << depth;
+                let d_old: Vec<usize> = (0..nb).filter(|i| old[*i] != p[*i]).collect();
+                let d_now: Vec<usize> = (0..nb).filter(|i| now[*i] != p[*i]).collect();
+                if d_old == d_now {
+                    "same_buckets"
+                } else {
+                    "other_buckets"
+                }
+            };
+            ctx.label(&format!("trap:digest_of_earlier_state_would_give:{}", class));
+            if !t.local_since && class != "same_buckets" {
+                ctx.label("trap:verdict_depends_on_remote_apply_since_last_digest");
+            }
+        }
+    }
+    changed
+}
+
+/// The digests two live nodes compute, against their states: each must be what an independent
+/// replica with equal state computes, and the pair verdict must match the states.
+#[allow(clippy::too_many_arguments)]
+fn observe_node_digests(
+    what: &str,
+    sim: &MultiNodeSimulation,
+    a: usize,
+    b: usize,
+    depth: usize,
+    ctx: &mut CaseCtx<'_>,
+    tol: &mut Tol,
+) -> Result<(), String> {
+    let (ma, mb) = (node_map(sim, a), node_map(sim, b));
+    let (da, db) = (sim.nodes[a].generate_digest(), sim.nodes[b].generate_digest());
+    for (i, m, d) in [(a, &ma, &da), (b, &mb, &db)] {
+        let twin = copies(m, 2).pop().expect("two copies");
+        let dt = digest_of(&twin, 20 + i as u64, depth);
+        check_equal_content_digests(
+            &format!(
+                "{}: the digest node {} computes (SimulatedNode::generate_digest) vs the digest of an independent replica holding the same state",
+                what, i
+            ),
+            m, d, &dt, depth, ctx, tol,
+        )?;
+    }
+    // what run_anti_entropy_sync derives from the two digests
+    let verdict = if da.differs_from(&db) {
+        Some(da.divergent_buckets(&db))
+    } else {
+        None
+    };
+    expect_verdict(
+        &format!("{}: digests of node {} and node {} (differs_from / divergent_buckets)", what, a, b),
+        &verdict, &ma, &mb, depth, ctx, tol,
+    )?;
+    ctx.add_evaluations(2);
+    Ok(())
+}
+
+/// Reference for one pair sync where nothing exceeds the per-round limit: every key of a bucket
+/// whose sorted key-digest lists differ ends as the merge on both sides.
+fn model_pair_sync(mi: &mut Map, mj: &mut Map, depth: usize) {
+    let (ii, ij) = (ideal(mi, depth), ideal(mj, depth));
+    let keys: BTreeSet<String> = mi
+        .iter()
+        .chain(mj.iter())
+        .filter(|(k, v)| {
+            let b = bucket_of(k, v, depth);
+            ii[b] != ij[b]
+        })
+        .map(|(k, _)| k.clone())
+        .collect();
+    for k in keys {
+        let ni = merge_opt(mi.get(&k), mj.get(&k));
+        let nj = merge_opt(mj.get(&k), mi.get(&k));
+        if let Some(v) = ni {
+            mi.insert(k.clone(), v);
+        }
+        if let Some(v) = nj {
+            mj.insert(k, v);
+        }
+    }
+}
+
+/// All orders of a short list (first: the list itself).
+fn permutations<T: Clone>(v: &[T]) -> Vec<Vec<T>> {
+    if v.len() <= 1 {
+        return vec![v.to_vec()];
+    }
+    let mut out = Vec::new();
+    for i in 0..v.len() {
+        let mut rest = v.to_vec();
+        let x = rest.remove(i);
+        for mut p in permutations(&rest) {
+            p.insert(0, x.clone());
+            out.push(p);
+        }
+    }
+    out
+}
+
+#[allow(clippy::too_many_arguments)]
+fn check_full_pass(
+    what: &str,
+    before: &[Map],
+    after: &[Map],
+    connected: &[(usize, usize)],
+    depth: usize,
+    limit: usize,
+    ctx: &mut CaseCtx<'_>,
+    tol: &mut Tol,
+) -> Result<(), String> {
+    let n = before.len();
+    let all_keys: BTreeSet<&String> = before.iter().chain(after.iter()).flat_map(|m| m.keys()).collect();
+    // safety: merge of a set of prior values that includes the node's own
+    for i in 0..n {
+        for k in &all_keys {
+            let now = after[i].get(*k);
+            let others: Vec<usize> = (0..n).filter(|j| *j != i).collect();
+            let mut explained = false;
+            'subsets: for mask in 0..(1usize << others.len()) {
+                let sel: Vec<usize> = others
+                    .iter()
+                    .enumerate()
+                    .filter(|(bit, _)| mask & (1 << bit) != 0)
+                    .map(|(_, j)| *j)
+                    .collect();
+                for rev in [false, true] {
+                    let mut acc = before[i].get(*k).cloned();
+                    let order: Vec<usize> = if rev { sel.iter().rev().copied().collect() } else { sel.clone() };
+                    for j in order {
+                        acc = merge_opt(acc.as_ref(), before[j].get(*k));
+                    }
+                    let ok = pv(now) == pv(acc.as_ref())
+                        || match (now, &acc) {
+                            (Some(x), Some(w)) => same_up_to_c07(x, w, false, ctx, tol).is_none(),
+                            _ => false,
+                        };
+                    if ok {
+                        explained = true;
+                        break 'subsets;
+                    }
+                }
+            }
+            if !explained {
+                return Err(format!(
+                    "{}: node {} holds for key {:?} a value that is not the merge of its prior value with prior values of other nodes:\n  now:    {}\n  priors: {:?}",
+                    what, i, k, pv(now),
+                    (0..n).map(|j| pv(before[j].get(*k)).to_string()).collect::<Vec<_>>()
+                ));
+            }
+        }
+    }
+    // exact result where no round is cut by the limit (and no bucket is falsely divergent): the
+    // pass syncs every connected pair once; the order of the pairs is not part of any contract, so
+    // the result of ANY order is accepted
+    if all_keys.len() <= limit && !ctx.finding_open(KF_FOLD) {
+        ctx.label("full_pass:within_limit_exact_result_asserted");
+        let mut first_err: Option<String> = None;
+        let mut matched = false;
+        for order in permutations(connected) {
+            let mut model: Vec<Map> = before.to_vec();
+            for (i, j) in &order {
+                let (lo, hi) = model.split_at_mut(*j);
+                model_pair_sync(&mut lo[*i], &mut hi[0], depth);
+            }
+            let mut err = None;
+            'cmp: for i in 0..n {
+                for k in &all_keys {
+                    let (now, want) = (after[i].get(*k), model[i].get(*k));
+                    let ok = pv(now) == pv(want)
+                        || match (now, want) {
+                            (Some(x), Some(w)) => same_up_to_c07(x, w, false, ctx, tol).is_none(),
+                            _ => false,
+                        };
+                    if !ok {
+                        err = Some(format!(
+                            "{}: after the pass over the connected pairs {:?} (depth {}, max_keys_per_sync {}, {} keys in all) node {} does not hold for key {:?} what pairwise digest-driven merges over these pairs give (in this or any other order of the pairs):\n  now:      {}\n  expected: {}\n  before:   {}",
+                            what, connected, depth, limit, all_keys.len(), i, k, pv(now), pv(want), pv(before[i].get(*k))
+                        ));
+                        break 'cmp;
+                    }
+                }
+            }
+            match err {
+                None => {
+                    matched = true;
+                    break;
+                }
+                Some(e) => {
+                    first_err.get_or_insert(e);
+                }
+            }
+        }
+        if !matched {
+            return Err(first_err.unwrap_or_else(|| format!("{}: internal: no pair order evaluated", what)));
+        }
+    } else {
+        ctx.label("full_pass:more_keys_than_limit_safety_only");
+    }
+    Ok(())
+}
+
+/// Updates the change flags of node `i` from its current state (`local`: the event was a local
+/// write on this node).
+fn attribute_change(track: &mut [NodeTrack], sim: &MultiNodeSimulation, i: usize, local: bool) {
+    let fp = state_fp(&sim.nodes[i].replica_state.replicated_keys);
+    if fp != track[i].fp {
+        track[i].fp = fp;
+        if local {
+            track[i].local_since = true;
+        } else {
+            track[i].remote_since = true;
+        }
+    }
+}
+
+/// Bookkeeping for the digests nodes `a` and `b` are about to compute for a comparison with
+/// each other; returns the life-cycle reach (see `label_digest_point`).
+fn digest_point(
+    track: &mut [NodeTrack],
+    sim: &MultiNodeSimulation,
+    a: usize,
+    b: usize,
+    depth: usize,
+    ctx: &mut CaseCtx<'_>,
+) -> bool {
+    let (ma, mb) = (node_map(sim, a), node_map(sim, b));
+    let ra = label_digest_point(&track[a], &ma, &mb, depth, ctx);
+    let rb = label_digest_point(&track[b], &mb, &ma, depth, ctx);
+    for (i, m) in [(a, &ma), (b, &mb)] {
+        track[i].digested = true;
+        track[i].at_digest = Some(ideal(m, depth));
+        track[i].local_since = false;
+        track[i].remote_since = false;
+        track[i].unknown_since = false;
+    }
+    ra || rb
+}
+
+fn check_sim_session(case: &SCase, ctx: &mut CaseCtx<'_>) -> Result<(), String> {
+    use redis_sim::redis::Command;
+    let n = if case.nodes % 4 == 0 { 2usize } else { 3 };
+    let depth = DEPTHS[case.depth as usize % DEPTHS.len()];
+    let limit = LIMITS[case.limit as usize % LIMITS.len()];
+    ctx.label(&format!("depth:{}", depth));
+    ctx.label(&format!("limit:{}", limit));
+    ctx.label(&format!("nodes:{}", n));
+    let mut tol = Tol::default();
+    let mut sim = MultiNodeSimulation::new(n, case.seed as u64);
+    sim.packet_loss_rate = [0.0, 0.3, 0.6][case.loss as usize % 3];
+    sim.auto_anti_entropy = case.auto_sync_on_heal;
+    for node in &mut sim.nodes {
+        node.anti_entropy.config.merkle_tree_depth = depth;
+        node.anti_entropy.config.max_keys_per_sync = limit;
+    }
+    let mut track: Vec<NodeTrack> = (0..n)
+        .map(|i| NodeTrack {
+            fp: state_fp(&sim.nodes[i].replica_state.replicated_keys),
+            digested: false,
+            at_digest: None,
+            local_since: false,
+            remote_since: false,
+            unknown_since: false,
+        })
+        .collect();
+    let key = |k: u8| format!("k{}", k % 6);
+    let mut reached = false;
+
+    for (idx, ev) in case.events.iter().enumerate() {
+        let mut local_writer: Option<usize> = None;
+        match ev {
+            SEv::Set { n: i, key: k, p, ex } => {
+                let i = *i as usize % n;
+                let mut cmd = Command::set(key(*k), SDS::from_str(PAYLOADS[*p as usize % 4]));
+                if *ex > 0 {
+                    if let Command::Set { ex: e, .. } = &mut cmd {
+                        *e = Some(*ex as i64 * 100);
+                    }
+                }
+                sim.execute(0, i, cmd);
+                local_writer = Some(i);
+            }
+            SEv::Del { n: i, key: k, key2 } => {
+                let i = *i as usize % n;
+                let mut keys = vec![key(*k)];
+                if key(*key2) != keys[0] {
+                    keys.push(key(*key2));
+                }
+                sim.execute(0, i, Command::Del(keys));
+                local_writer = Some(i);
+            }
+            SEv::GossipRounds { rounds } => {
+                sim.converge(1 + *rounds as usize % 3);
+            }
+            SEv::Deliver { from, to, key: k } => {
+                let (from, to) = (*from as usize % n, *to as usize % n);
+                let k = key(*k);
+                if from != to && sim.can_communicate(from, to) {
+                    if let Some(v) = sim.nodes[from].replica_state.replicated_keys.get(&k).cloned() {
+                        let src = sim.nodes[from].replica_id;
+                        sim.nodes[to].apply_remote_deltas(vec![ReplicationDelta::new(k, v, src)]);
+                    }
+                }
+            }
+            SEv::Partition { a, b } => {
+                let (a, b) = (*a as usize % n, *b as usize % n);
+                if a != b {
+                    sim.partition(a, b);
+                    ctx.label("partitioned");
+                }
+            }
+            SEv::Heal { a, b, observe } => {
+                let (a, b) = (*a as usize % n, *b as usize % n);
+                if a != b {
+                    let syncs = !sim.can_communicate(a, b) && case.auto_sync_on_heal;
+                    if syncs {
+                        ctx.label("pair_sync:by_heal_partition");
+                        reached |= sim_pair_sync(&mut sim, &mut track, a, b, true, *observe, depth, limit, idx, ctx, &mut tol)?;
+                    } else {
+                        ctx.label("heal_without_sync");
+                        sim.heal_partition(a, b);
+                    }
+                }
+            }
+            SEv::Sync { a, b, observe } => {
+                let (a, b) = (*a as usize % n, *b as usize % n);
+                if a != b {
+                    if sim.can_communicate(a, b) {
+                        ctx.label("pair_sync:run_anti_entropy_sync");
+                        reached |= sim_pair_sync(&mut sim, &mut track, a, b, false, *observe, depth, limit, idx, ctx, &mut tol)?;
+                    } else {
+                        ctx.label("pair_sync_skipped:partitioned");
+                    }
+                }
+            }
+            SEv::FullSync { observe } => {
+                let connected: Vec<(usize, usize)> = (0..n)
+                    .flat_map(|i| ((i + 1)..n).map(move |j| (i, j)))
+                    .filter(|(i, j)| sim.can_communicate(*i, *j))
+                    .collect();
+                ctx.label(&format!("full_pass:connected_pairs:{}", connected.len()));
+                let before: Vec<Map> = (0..n).map(|i| node_map(&sim, i)).collect();
+                // labels: each node's first digest of the pass (against its first peer)
+                let mut pairs_of: BTreeMap<usize, usize> = BTreeMap::new();
+                for (i, j) in &connected {
+                    for (x, y) in [(*i, *j), (*j, *i)] {
+                        let c = pairs_of.entry(x).or_insert(0);
+                        if *c == 0 {
+                            reached |= label_digest_point(&track[x], &before[x], &before[y], depth, ctx);
+                        }
+                        *c += 1;
+                    }
+                }
+                sim.run_full_anti_entropy();
+                let after: Vec<Map> = (0..n).map(|i| node_map(&sim, i)).collect();
+                check_full_pass(
+                    &format!("event #{}: run_full_anti_entropy", idx),
+                    &before, &after, &connected, depth, limit, ctx, &mut tol,
+                )?;
+                ctx.add_evaluations(connected.len() as u64);
+                for (x, cnt) in &pairs_of {
+                    let x = *x;
+                    let changed = state_fp(&after[x]) != state_fp(&before[x]);
+                    track[x].digested = true;
+                    track[x].local_since = false;
+                    track[x].fp = state_fp(&after[x]);
+                    if !changed || *cnt == 1 {
+                        // its last digest of the pass was taken on the state before the pass
+                        // (one pair), or the pass did not change it
+                        track[x].at_digest = Some(ideal(&before[x], depth));
+                        track[x].remote_since = changed;
+                        track[x].unknown_since = false;
+                    } else {
+                        // changed somewhere between its digests inside the pass
+                        track[x].at_digest = None;
+                        track[x].remote_since = false;
+                        track[x].unknown_since = true;
+                    }
+                }
+                if *observe {
+                    for (i, j) in &connected {
+                        digest_point(&mut track, &sim, *i, *j, depth, ctx);
+                        observe_node_digests(
+                            &format!("event #{}: after run_full_anti_entropy", idx),
+                            &sim, *i, *j, depth, ctx, &mut tol,
+                        )?;
+                    }
+                }
+            }
+            SEv::Compare { a, b } => {
+                let (a, b) = (*a as usize % n, *b as usize % n);
+                if a != b {
+                    ctx.label("digest_comparison_only");
+                    reached |= digest_point(&mut track, &sim, a, b, depth, ctx);
+                    observe_node_digests(&format!("event #{}", idx), &sim, a, b, depth, ctx, &mut tol)?;
+                }
+            }
+        }
+        for i in 0..n {
+            attribute_change(&mut track, &sim, i, local_writer == Some(i));
+        }
+    }
+    // non-trivial: a node that had computed a digest before, and whose state changed since,
+    // took part in a later digest comparison
+    if reached {
+        ctx.nontrivial(&format!("{:?}", case));
+    }
+    Ok(())
+}
+
+/// One pair sync through the simulator (`run_anti_entropy_sync`, or `heal_partition` of a
+/// partitioned pair) with the pair oracle; returns the life-cycle reach of its two digests.
+#[allow(clippy::too_many_arguments)]
+fn sim_pair_sync(
+    sim: &mut MultiNodeSimulation,
+    track: &mut [NodeTrack],
+    a: usize,
+    b: usize,
+    by_heal: bool,
+    observe: bool,
+    depth: usize,
+    limit: usize,
+    idx: usize,
+    ctx: &mut CaseCtx<'_>,
+    tol: &mut Tol,
+) -> Result<bool, String> {
+    let (a0, b0) = (node_map(sim, a), node_map(sim, b));
+    let reach = digest_point(track, sim, a, b, depth, ctx);
+    if by_heal {
+        sim.heal_partition(a, b);
+    } else {
+        sim.run_anti_entropy_sync(a, b);
+    }
+    let (a1, b1) = (node_map(sim, a), node_map(sim, b));
+    let mut p = plan(&a0, &b0, depth, limit, ctx.finding_open(KF_FOLD));
+    p.rounds = 1;
+    let liveness = if p.k0.is_empty() {
+        ctx.label("pair_sync:nothing_divergent");
+        true
+    } else if p.over_limit {
+        ctx.label("pair_sync:more_keys_than_limit");
+        !tol.tolerate(ctx, KF_STUCK)
+    } else {
+        ctx.label("pair_sync:within_limit_merge_asserted");
+        true
+    };
+    check_after_sync(
+        &format!(
+            "event #{}: {} between node {} and node {} (long-lived nodes)",
+            idx,
+            if by_heal { "heal_partition -> anti-entropy sync" } else { "run_anti_entropy_sync" },
+            a, b
+        ),
+        &a0, &b0, &a1, &b1, &p, liveness, depth, limit, ctx, tol,
+    )?;
+    ctx.add_evaluations(1);
+    attribute_change(track, sim, a, false);
+    attribute_change(track, sim, b, false);
+    if observe {
+        digest_point(track, sim, a, b, depth, ctx);
+        observe_node_digests(&format!("event #{}: after the sync", idx), sim, a, b, depth, ctx, tol)?;
+    }
+    Ok(reach)
+}
+
+fn sev() -> impl Strategy<Value = SEv> {
+    let n = || 0u8..3;
+    prop_oneof![
+        5 => (n(), 0u8..6, 0u8..4, prop_oneof![5 => Just(0u8), 1 => 1u8..3])
+            .prop_map(|(n, key, p, ex)| SEv::Set { n, key, p, ex }),
+        1 => (n(), 0u8..6, 0u8..6).prop_map(|(n, key, key2)| SEv::Del { n, key, key2 }),
+        3 => (0u8..3).prop_map(|rounds| SEv::GossipRounds { rounds }),
+        2 => (n(), n(), 0u8..6).prop_map(|(from, to, key)| SEv::Deliver { from, to, key }),
+        2 => (n(), n()).prop_map(|(a, b)| SEv::Partition { a, b }),
+        2 => (n(), n(), prop::bool::weighted(0.3)).prop_map(|(a, b, observe)| SEv::Heal { a, b, observe }),
+        4 => (n(), n(), prop::bool::weighted(0.3)).prop_map(|(a, b, observe)| SEv::Sync { a, b, observe }),
+        1 => prop::bool::weighted(0.3).prop_map(|observe| SEv::FullSync { observe }),
+        3 => (n(), n()).prop_map(|(a, b)| SEv::Compare { a, b }),
+    ]
+}
+
+fn scase_strategy() -> impl Strategy<Value = SCase> {
+    (
+        0u8..4,
+        0u8..5,
+        0u8..4,
+        any::<u8>(),
+        prop_oneof![3 => Just(0u8), 1 => Just(1u8), 1 => Just(2u8)],
+        prop::bool::weighted(0.85),
+        proptest::collection::vec(sev(), 2..25),
+    )
+        .prop_map(|(nodes, depth, limit, seed, loss, auto_sync_on_heal, events)| SCase {
+            nodes,
+            depth,
+            limit,
+            seed,
+            loss,
+            auto_sync_on_heal,
+            events,
+        })
+}
+
+// ---------------------------------------------------------------------------------------
 // generators
 // ---------------------------------------------------------------------------------------
 
@@ -1668,6 +2278,12 @@ fn main() {
         "2-3 replicas, each with ONE long-lived AntiEntropyManager, through generated event sequences (local writes with on_local_write, replication without it, digest exchanges in both directions, request/response round trips over the manager's queues, partition heal, time): every process_peer_digest verdict against the states themselves, peers_needing_sync/should_sync against flags and times, the round trip against the merge",
     );
     s.run_cases("manager_sessions", s.scale(20_000, 3_000_000), mcase_strategy, check_session);
+
+    s.describe_check(
+        "sim_sessions",
+        "ONE long-lived MultiNodeSimulation (2-3 SimulatedNodes) through generated event sequences using its public entry points only (execute SET/DEL, gossip rounds with delay/loss, direct apply_remote_deltas, partition, heal_partition, run_anti_entropy_sync, run_full_anti_entropy, digest comparison): every digest a node computes (SimulatedNode::generate_digest) - also its 2nd, 3rd ... after local writes and after state that arrived by replication or by an earlier sync - against the digest of an independent replica with equal state and, pairwise, against the two states; every pair sync against the merge; a full pass against pairwise merges over the connected pairs. non-trivial = a node that had computed a digest before and whose state changed since takes part in a later digest comparison",
+    );
+    s.run_cases("sim_sessions", s.scale(10_000, 1_500_000), scase_strategy, check_sim_session);
 
     s.finish();
 }
